@@ -122,6 +122,16 @@ func (cx *Connection) Write(p []byte) (n int, err error) {
 	return
 }
 
+// CloseWrite shuts down the writing side of the underlying connection if it
+// supports that (TCP, Unix sockets, TLS). Connections that wrap a Connection
+// forward half-closes through this method.
+func (cx *Connection) CloseWrite() error {
+	if cw, ok := cx.Conn.(interface{ CloseWrite() error }); ok {
+		return cw.CloseWrite()
+	}
+	return errors.ErrUnsupported
+}
+
 // Wrap wraps conn in a new Connection based on cx (reusing
 // cx's existing buffer and context). This is useful after
 // a connection is wrapped by a package that does not support
